@@ -10,6 +10,10 @@
   the segment's two ends, is at least w - 1 pixels wide at its middle, and for width 1 equals
   points()."
 
+  TIE BY REGENERATION: EG/Props/C17/GeneratedLine.lean and GeneratedThick.lean prove the hand models used here equal, function
+  by function and for all inputs, to definitions that tools/tr_linesrc.py regenerates from the Rust text on every check
+  (EG/Generated/LineSrc.lean, ThickSrc.lean), and restate the theorems below over the regenerated functions (`src_*`).
+
   All thin-line claims are proved for all end points (unbounded integers). Of the stroked-line
   sentence "for width 1 equals points()" (`thick_width1_eq_points`) and "contains the thin line"
   (`thick_contains_thin`: the centre line is the first parallel emitted, for every width) are
